@@ -265,6 +265,9 @@ def run(repo, tier):
                'gaps also come from the npixels filter; with gaps the merge advances max_label by len(new_labels) and the next parent reuses a label')
     apply_specs(repo, res, [('photutils.segmentation.deblend.deblend_sources', 'stmt', 'deblend_label_map = {}',
                              'the parent->children map starts empty (records of an earlier deblending of the input do not leak in)')])
+    # the property reads the segmentation image through its cached attributes: they must describe the current label array
+    from . import lazyrules as _LR
+    _LR.run_L1(repo, res, PROP, _LR.lazy_classes(repo, only={'photutils.segmentation.core.SegmentationImage'}))
     from .common import run_generic_pack
     run_generic_pack(repo, res, PROP, ())
     return res
